@@ -1638,4 +1638,396 @@ theorem otherStep_sinv {i i2 : IR} {p : Patch} {s : PatchSect} {sid bid : Nat} {
       exact (List.mem_filter.mp hzF).2
     · exact hown y hy c (List.mem_append_right _ hc) hr
 
+/-- ids of the blocks in the extra sections still to be added -/
+def pendOf (l : List (PatchSect × Nat × Nat)) : List Nat := (l.map (fun s => s.1.blocks.map (·.id))).flatten
+
+theorem pendOf_cons (x : PatchSect × Nat × Nat) (xs : List (PatchSect × Nat × Nat)) :
+    pendOf (x :: xs) = x.1.blocks.map (·.id) ++ pendOf xs := by
+  unfold pendOf; simp
+
+/-- what has to hold before the extra sections `l` are added -/
+structure OthersReady (p : Patch) (a : IR) (l : List (PatchSect × Nat × Nat)) : Prop where
+  syms : SymsOk a (pendOf l)
+  ord : OrdOk a
+  fresh : ∀ c ∈ pendOf l, a.block? c = none
+  nodup : (pendOf l).Nodup
+  ivs : ∀ x ∈ l, a.interval? x.2.2 = none
+  ivnd : (l.map (·.2.2)).Nodup
+  own : ∀ y ∈ a.syms, ∀ c ∈ pendOf l, y.ref = .block c → p.syms.any (·.id == y.id) = true
+
+theorem addOthers_sinv_aux : ∀ (l : List (PatchSect × Nat × Nat)) (p : Patch) (acc : Except Err IR) (ir' : IR),
+    (∀ a, acc = .ok a → OthersReady p a l) →
+    l.foldl (fun (acc : Except Err IR) (x : PatchSect × Nat × Nat) =>
+      match acc with
+      | .error e => .error e
+      | .ok i =>
+        match i.addOtherSection { p with syms := i.syms.filter (fun y => p.syms.any (·.id == y.id)) } x.1 x.2.1 x.2.2 with
+        | .error e => .error e
+        | .ok (i', newSyms) =>
+          .ok { i' with syms := i'.syms.map (fun y =>
+            match newSyms.find? (·.id == y.id) with
+            | some ny => ny
+            | none => y) }) acc = .ok ir' → SymsOk ir' [] ∧ OrdOk ir' := by
+  intro l
+  induction l with
+  | nil =>
+    intro p acc ir' hacc h
+    have r := hacc ir' h
+    exact ⟨by simpa [pendOf] using r.syms, r.ord⟩
+  | cons x xs ih =>
+    intro p acc ir' hacc h
+    simp only [List.foldl_cons] at h
+    refine ih p _ ir' ?_ h
+    intro a' ha'
+    split at ha'
+    · cases ha'
+    · rename_i i
+      split at ha'
+      · cases ha'
+      · rename_i i2 ns hao
+        injection ha' with ha'
+        have r := hacc i rfl
+        have hnd := r.nodup
+        rw [pendOf_cons] at hnd
+        obtain ⟨hnd1, hnd2, hdis⟩ := List.nodup_append.mp hnd
+        have hivnd := r.ivnd
+        simp only [List.map_cons] at hivnd
+        obtain ⟨hbnot, hivnd2⟩ := List.nodup_cons.mp hivnd
+        obtain ⟨s1, o1, _, hblk, hivk, hown⟩ := otherStep_sinv (rest := pendOf xs) hao
+          (by rw [← pendOf_cons]; exact r.syms) r.ord
+          (fun c hc => r.fresh c (by rw [pendOf_cons]; exact List.mem_append_left _ hc)) hnd1
+          (fun c hc hr => hdis c hc c hr rfl)
+          (r.ivs x List.mem_cons_self)
+          (by rw [← pendOf_cons]; exact r.own) a' ha'.symm
+        refine ⟨s1, o1, ?_, hnd2, ?_, hivnd2, hown⟩
+        · intro c hc
+          rw [hblk c (fun hm => hdis c hm c hc rfl)]
+          exact r.fresh c (by rw [pendOf_cons]; exact List.mem_append_right _ hc)
+        · intro y hy
+          rw [hivk y.2.2 (fun he => hbnot (by rw [← he]; exact List.mem_map_of_mem hy))]
+          exact r.ivs y (List.mem_cons_of_mem _ hy)
+
+theorem addOthers_sinv {ir ir' : IR} {p : Patch} (h : ir.addOthers p = .ok ir') (hr : OthersReady p ir p.others) :
+    SymsOk ir' [] ∧ OrdOk ir' := by
+  unfold IR.addOthers at h
+  exact addOthers_sinv_aux p.others p (.ok ir) ir' (fun a ha => by injection ha with ha; subst ha; exact hr) h
+
+/-! ### insert -/
+
+/-- the block behind the insertion point is not the block inserted into -/
+theorem insertSplit_ne {ir ir' : IR} {b off repl endB : Nat} {added : Bool}
+    (h : ir.insertSplit b off repl = .ok (ir', endB, added)) (hI : IdsBelow ir) (hb : ir.block? b ≠ none) : b ≠ endB := by
+  unfold IR.insertSplit at h
+  split at h
+  · cases h
+  · rename_i ir1 e0 a0 hs1
+    split at h
+    · split at h
+      · cases h
+      · rename_i i2 e2 a2 hs2
+        split at h
+        · cases h
+        · injection h with h; injection h with h1 h2; injection h2 with h2 h3; subst h2
+          exact splitBlock_new_ne hs2 (splitBlock_idsBelow hs1 hI) b ((splitBlock_keeps hs1).block hb)
+    · injection h with h; injection h with h1 h2; injection h2 with h2 h3; subst h2
+      exact splitBlock_new_ne hs1 hI b hb
+
+theorem editInterval_interval?_other (ir : IR) (i off len : Nat) (c st : List Nat) (k : Nat) (hk : k ≠ i) :
+    (ir.editInterval i off len c st).interval? k = ir.interval? k := by
+  unfold IR.editInterval
+  split
+  · rfl
+  · rename_i bi hbi
+    have hbid : bi.id = i := by
+      unfold IR.interval? at hbi
+      have := List.find?_some hbi
+      simpa using this
+    let nv : Interval :=
+      { id := bi.id, sect := bi.sect, addr := bi.addr, size := bi.size + c.length - len,
+        bytes := spliceBytes bi.bytes off len c, symExprs := shiftKeys off len c.length bi.symExprs }
+    show (ir.setInterval nv).interval? k = _
+    exact interval?_setInterval_other ir i k nv hbid hk
+
+theorem addPatchExprs_interval?_other (ir : IR) (i base : Nat) (ex : List (Nat × SymExpr)) (k : Nat) (hk : k ≠ i) :
+    (ir.addPatchExprs i base ex).interval? k = ir.interval? k := by
+  unfold IR.addPatchExprs
+  split
+  · rfl
+  · rename_i bi hbi
+    have hbid : bi.id = i := by
+      unfold IR.interval? at hbi
+      have := List.find?_some hbi
+      simpa using this
+    let nv : Interval := { bi with symExprs := ex.foldl (fun m (k, v) => aset (base + k) v m) bi.symExprs }
+    show (ir.setInterval nv).interval? k = _
+    exact interval?_setInterval_other ir i k nv hbid hk
+
+theorem interval?_of_intervals {a b : IR} (h : b.intervals = a.intervals) (k : Nat) : b.interval? k = a.interval? k := by
+  unfold IR.interval?; rw [h]
+
+/-- **the objects of a patch are new**: the blocks of all its sections are pairwise different
+objects that are no blocks of the module yet (ids below the model's counter), the byte intervals
+of its extra sections are new, and the symbols it defines stand on its own blocks -/
+structure PatchOk (ir : IR) (p : Patch) : Prop where
+  fresh : ∀ c ∈ p.text.blocks.map (·.id) ++ pendOf p.others, ir.block? c = none ∧ c < ir.next
+  nodup : (p.text.blocks.map (·.id) ++ pendOf p.others).Nodup
+  ivs : ∀ x ∈ p.others, ir.interval? x.2.2 = none
+  ivnd : (p.others.map (·.2.2)).Nodup
+  syms : ∀ y ∈ p.syms, ∀ b, y.ref = .block b → b ∈ p.text.blocks.map (·.id) ++ pendOf p.others
+
+/-- **`insert` keeps every symbol on a block of the module** -/
+theorem insert_sinv {ir ir' : IR} {b off repl last : Nat} {p : Patch}
+    (h : ir.insert b off repl p = .ok (ir', last)) (hs : SymsOk ir []) (ho : OrdOk ir) (hI : IdsBelow ir)
+    (hp : PatchOk ir p) : SymsOk ir' [] ∧ OrdOk ir' := by
+  cases hb : ir.block? b with
+  | none => unfold IR.insert at h; rw [hb] at h; cases h
+  | some blk =>
+  unfold IR.insert at h
+  rw [hb] at h
+  simp only [] at h
+  split at h
+  · cases h
+  · split at h
+    · cases h
+    · split at h
+      · rename_i biId sect hbi hsect
+        split at h
+        · cases h
+        · split at h
+          · cases h
+          · split at h
+            · cases h
+            · split at h
+              · cases h
+              · split at h
+                · cases h
+                · rename_i ir2 endB added hsp
+                  split at h
+                  · cases h
+                  · split at h
+                    · cases h
+                    · rename_i ir12 hoth
+                      -- names
+                      have hTO := hp.nodup
+                      obtain ⟨hTnd, hOnd, hTOdis⟩ := List.nodup_append.mp hTO
+                      have hsecb : Sec ir b sect := ⟨blk, hb, hsect⟩
+                      have hisec : ISec ir biId sect := by
+                        unfold IR.sectionOf at hsect; rw [hbi] at hsect; exact hsect
+                      have hin : In biId ir b := ⟨blk, hb, Or.inl hbi⟩
+                      -- after the split
+                      obtain ⟨s2, o2, hsec2⟩ := insertSplit_sinv hsp hs ho hI
+                      obtain ⟨hsb2, hse2⟩ := hsec2 sect hsecb
+                      obtain ⟨hI2, _, _, _⟩ := insertSplit_facts hsp hin hI
+                      have hbe : b ≠ endB := insertSplit_ne hsp hI (by rw [hb]; simp)
+                      have hiv2 := insertSplit_intervals hsp
+                      have hfresh2 : ∀ c ∈ p.text.blocks.map (·.id) ++ pendOf p.others, ir2.block? c = none := by
+                        intro c hc
+                        rw [block?_none_iff]
+                        intro hm
+                        obtain ⟨hn, hlt⟩ := hp.fresh c hc
+                        rcases insertSplit_ids_sub hsp c hm with h1 | h1
+                        · exact (block?_none_iff ir c).mp hn h1
+                        · omega
+                      generalize hpc : (if blk.isCode then ir.matchPatchReturnEdges b p.cfg p.proxies else (p.cfg, p.proxies))
+                        = pcX at hoth h
+                      -- the return edges of calls in the patch: CFG only
+                      have hRb : (ir2.addReturnEdgesForPatchCalls pcX.1).1.blocks = ir2.blocks :=
+                        addReturnEdgesForPatchCalls_blocks _ _
+                      have hRi : (ir2.addReturnEdgesForPatchCalls pcX.1).1.intervals = ir2.intervals :=
+                        addReturnEdgesForPatchCalls_intervals _ _
+                      have hRs : (ir2.addReturnEdgesForPatchCalls pcX.1).1.syms = ir2.syms :=
+                        addReturnEdgesForPatchCalls_syms _ _
+                      have hRo : (ir2.addReturnEdgesForPatchCalls pcX.1).1.order = ir2.order :=
+                        addReturnEdgesForPatchCalls_order _ _
+                      generalize hR : (ir2.addReturnEdgesForPatchCalls pcX.1) = R at hoth h hRb hRi hRs hRo
+                      -- the stitch appends the patch's blocks, detached
+                      have hSb := insertStitch_blocks R.1 p.text.blocks b endB added
+                      have hSi : (R.1.insertStitch p.text.blocks b endB added).intervals = R.1.intervals :=
+                        insertStitch_intervals _ _ _ _ _
+                      have hSs : (R.1.insertStitch p.text.blocks b endB added).syms = R.1.syms := insertStitch_syms _ _ _ _ _
+                      have hSo : (R.1.insertStitch p.text.blocks b endB added).order = R.1.order := insertStitch_order _ _ _ _ _
+                      have hinS : ∀ c ∈ p.text.blocks.map (·.id), In biId (R.1.insertStitch p.text.blocks b endB added) c := by
+                        intro c hc
+                        apply insertStitch_in _ _ _ _ _ _ hc
+                        intro x hx
+                        rw [block?_of_blocks hRb c, hfresh2 c (List.mem_append_left _ hc)] at hx
+                        cases hx
+                      generalize hS : R.1.insertStitch p.text.blocks b endB added = S at hoth h hSb hSi hSs hSo hinS
+                      -- the byte edit
+                      have tE := editInterval_touches S biId (blk.off + off) repl p.text.data [b]
+                      have hEle := editInterval_secLe S biId (blk.off + off) repl p.text.data [b]
+                      have hEs := editInterval_syms S biId (blk.off + off) repl p.text.data [b]
+                      have hEo := editInterval_order S biId (blk.off + off) repl p.text.data [b]
+                      have hEisec : ISec (S.editInterval biId (blk.off + off) repl p.text.data [b]) biId sect :=
+                        editInterval_isec S _ _ _ _ _ _ _
+                          (ISec.of_intervals hSi (ISec.of_intervals hRi (ISec.of_intervals hiv2 hisec)))
+                      have hEiv : ∀ k, k ≠ biId → (S.editInterval biId (blk.off + off) repl p.text.data [b]).interval? k = ir.interval? k := by
+                        intro k hk
+                        rw [editInterval_interval?_other _ _ _ _ _ _ k hk, interval?_of_intervals hSi,
+                          interval?_of_intervals hRi, interval?_of_intervals hiv2]
+                      generalize hE : S.editInterval biId (blk.off + off) repl p.text.data [b] = E at hoth h tE hEle hEs hEo hEisec hEiv
+                      -- old blocks from the split state to E
+                      have hle2E : SecLe ir2 E :=
+                        ((SecLe.of_same hRb hRi).trans (secLe_of_append _ hSb hSi)).trans hEle
+                      -- placing the patch's blocks
+                      have hPother : ∀ c s, Sec ir2 c s → Sec (E.placePatchBlocks p.text.blocks biId (blk.off + off)) c s := by
+                        intro c s hsec
+                        obtain ⟨x, hx, hsx⟩ := hle2E c s hsec
+                        have hcT : c ∉ p.text.blocks.map (·.id) := by
+                          intro hm
+                          exact hsec.block (hfresh2 c (List.mem_append_left _ hm))
+                        refine ⟨x, by rw [placePatchBlocks_other _ _ _ _ _ hcT]; exact hx, ?_⟩
+                        rw [sectionOf_congr (placePatchBlocks_intervals _ _ _ _)]; exact hsx
+                      have hPnew : ∀ c ∈ p.text.blocks.map (·.id), Sec (E.placePatchBlocks p.text.blocks biId (blk.off + off)) c sect := by
+                        intro c hc
+                        obtain ⟨eb, heb, _⟩ := tE.1.in (hinS c hc)
+                        obtain ⟨pb, hpb, hpbi⟩ := placePatchBlocks_patch E p.text.blocks biId (blk.off + off) c hc (by rw [heb]; simp)
+                        exact Sec.of_isec hpb hpbi (ISec.of_intervals (placePatchBlocks_intervals _ _ _ _) hEisec)
+                      have hPids : (E.placePatchBlocks p.text.blocks biId (blk.off + off)).ids = ir2.ids ++ p.text.blocks.map (·.id) := by
+                        rw [placePatchBlocks_ids, tE.2.2.1]
+                        unfold IR.ids
+                        rw [hSb, List.map_append, hRb, List.map_map]
+                        rfl
+                      have hPs : (E.placePatchBlocks p.text.blocks biId (blk.off + off)).syms = ir2.syms := by
+                        rw [placePatchBlocks_syms, hEs, hSs, hRs]
+                      have hPo : (E.placePatchBlocks p.text.blocks biId (blk.off + off)).order = ir2.order := by
+                        rw [placePatchBlocks_order, hEo, hSo, hRo]
+                      have hPiv : ∀ k, k ≠ biId → (E.placePatchBlocks p.text.blocks biId (blk.off + off)).interval? k = ir.interval? k := by
+                        intro k hk
+                        rw [interval?_of_intervals (placePatchBlocks_intervals _ _ _ _)]; exact hEiv k hk
+                      generalize hP : E.placePatchBlocks p.text.blocks biId (blk.off + off) = P at hoth h hPother hPnew hPids hPs hPo hPiv
+                      -- expressions, ordering, nodes, aux data, functions: up to the other sections
+                      have hQle := addPatchExprs_secLe P biId (blk.off + off) p.text.symExprs
+                      let T := p.text.blocks.map (·.id)
+                      let O := pendOf p.others
+                      have hXb : ∀ (c : List Edge) (px : List Nat), (((((P.addPatchExprs biId (blk.off + off)
+                          p.text.symExprs).orderInsertAfter sect b T).addPatchNodes p c px).addPatchAux p biId (blk.off + off)).addPatchFunctions
+                          blk p.text.blocks).blocks = P.blocks := by
+                        intro c px
+                        rw [addPatchFunctions_blocks]
+                        show (IR.addPatchExprs _ _ _ _).blocks = _
+                        rw [addPatchExprs_blocks]
+                      have hXsec : ∀ (c : List Edge) (px : List Nat) k t, Sec P k t → Sec (((((P.addPatchExprs biId (blk.off + off)
+                          p.text.symExprs).orderInsertAfter sect b T).addPatchNodes p c px).addPatchAux p biId (blk.off + off)).addPatchFunctions
+                          blk p.text.blocks) k t := by
+                        intro c px k t hsec
+                        obtain ⟨x, hx, hsx⟩ := hQle k t hsec
+                        refine ⟨x, ?_, ?_⟩
+                        · rw [block?_of_blocks (hXb c px) k, ← block?_of_blocks (addPatchExprs_blocks P biId (blk.off + off) p.text.symExprs) k]
+                          exact hx
+                        · have : ((((P.addPatchExprs biId (blk.off + off) p.text.symExprs).orderInsertAfter sect b T).addPatchNodes p c px).addPatchAux
+                              p biId (blk.off + off) |>.addPatchFunctions blk p.text.blocks).intervals =
+                              (P.addPatchExprs biId (blk.off + off) p.text.symExprs).intervals := by
+                            rw [addPatchFunctions_intervals]; rfl
+                          rw [sectionOf_congr this]; exact hsx
+                      have hXs : ∀ (c : List Edge) (px : List Nat), (((((P.addPatchExprs biId (blk.off + off)
+                          p.text.symExprs).orderInsertAfter sect b T).addPatchNodes p c px).addPatchAux p biId (blk.off + off)).addPatchFunctions
+                          blk p.text.blocks).syms = ir2.syms ++ p.syms := by
+                        intro c px
+                        rw [addPatchFunctions_syms, addPatchAux_syms]
+                        show (IR.addPatchExprs _ _ _ _).syms ++ p.syms = _
+                        rw [addPatchExprs_syms, hPs]
+                      have hXo : ∀ (c : List Edge) (px : List Nat), (((((P.addPatchExprs biId (blk.off + off)
+                          p.text.symExprs).orderInsertAfter sect b T).addPatchNodes p c px).addPatchAux p biId (blk.off + off)).addPatchFunctions
+                          blk p.text.blocks).order = aset sect (((alookup sect ir2.order).getD []).map (insAfter b T)) ir2.order := by
+                        intro c px
+                        rw [addPatchFunctions_order, addPatchAux_order, addPatchNodes_order]
+                        unfold IR.orderInsertAfter
+                        simp only [addPatchExprs_order, hPo]
+                      have hXiv : ∀ (c : List Edge) (px : List Nat) k, k ≠ biId → (((((P.addPatchExprs biId (blk.off + off)
+                          p.text.symExprs).orderInsertAfter sect b T).addPatchNodes p c px).addPatchAux p biId (blk.off + off)).addPatchFunctions
+                          blk p.text.blocks).interval? k = ir.interval? k := by
+                        intro c px k hk
+                        have : ((((P.addPatchExprs biId (blk.off + off) p.text.symExprs).orderInsertAfter sect b T).addPatchNodes p c px).addPatchAux
+                              p biId (blk.off + off) |>.addPatchFunctions blk p.text.blocks).intervals =
+                              (P.addPatchExprs biId (blk.off + off) p.text.symExprs).intervals := by
+                            rw [addPatchFunctions_intervals]; rfl
+                        rw [interval?_of_intervals this, addPatchExprs_interval?_other _ _ _ _ k hk]
+                        exact hPiv k hk
+                      have hXb' := hXb R.2 pcX.2
+                      have hXsec' := hXsec R.2 pcX.2
+                      have hXs' := hXs R.2 pcX.2
+                      have hXo' := hXo R.2 pcX.2
+                      have hXiv' := hXiv R.2 pcX.2
+                      generalize hX : ((((P.addPatchExprs biId (blk.off + off) p.text.symExprs).orderInsertAfter sect b
+                          (p.text.blocks.map (·.id))).addPatchNodes p R.2 pcX.2).addPatchAux p biId (blk.off + off)).addPatchFunctions
+                          blk p.text.blocks = X at hoth h hXb' hXsec' hXs' hXo' hXiv'
+                      -- everything attached so far
+                      have hle2X : ∀ c t, Sec ir2 c t → Sec X c t := fun c t hc => hXsec' c t (hPother c t hc)
+                      have hTX : ∀ c ∈ T, Sec X c sect := fun c hc => hXsec' c sect (hPnew c hc)
+                      have hready : OthersReady p X p.others := by
+                        refine ⟨?_, ?_, ?_, hOnd, ?_, hp.ivnd, ?_⟩
+                        · intro y hy c hc
+                          rw [hXs'] at hy
+                          rcases List.mem_append.mp hy with hy | hy
+                          · rcases s2 y hy c hc with ⟨t, hsec⟩ | hpe
+                            · exact Or.inl ⟨t, hle2X c t hsec⟩
+                            · cases hpe
+                          · rcases List.mem_append.mp (hp.syms y hy c hc) with hm | hm
+                            · exact Or.inl ⟨sect, hTX c hm⟩
+                            · exact Or.inr hm
+                        · intro t ch hch
+                          rw [hXo', getD_alookup_aset] at hch
+                          split at hch
+                          · rename_i htt
+                            subst htt
+                            obtain ⟨ch0, hch0, rfl⟩ := List.mem_map.mp hch
+                            obtain ⟨hnd0, hm0⟩ := o2 t ch0 hch0
+                            refine ⟨nodup_insAfter b T hTnd ch0 hnd0 ?_, ?_⟩
+                            · intro x hx hm
+                              exact (hm0 x hm).block (hfresh2 x (List.mem_append_left _ hx))
+                            · intro x hx
+                              rcases mem_insAfter b T ch0 x hx with hx | hx
+                              · exact hle2X x t (hm0 x hx)
+                              · exact hTX x hx
+                          · obtain ⟨hnd0, hm0⟩ := o2 t ch hch
+                            exact ⟨hnd0, fun x hx => hle2X x t (hm0 x hx)⟩
+                        · intro c hc
+                          rw [block?_of_blocks hXb' c, block?_none_iff, hPids]
+                          intro hm
+                          rcases List.mem_append.mp hm with hm | hm
+                          · exact (block?_none_iff ir2 c).mp (hfresh2 c (List.mem_append_right _ hc)) hm
+                          · exact hTOdis c hm c hc rfl
+                        · intro x hx
+                          have hk : x.2.2 ≠ biId := by
+                            intro he
+                            have := hp.ivs x hx
+                            rw [he] at this
+                            unfold ISec at hisec
+                            rw [this] at hisec; cases hisec
+                          rw [hXiv' x.2.2 hk]; exact hp.ivs x hx
+                        · intro y hy c hc hr
+                          rw [hXs'] at hy
+                          rcases List.mem_append.mp hy with hy | hy
+                          · exfalso
+                            rcases s2 y hy c hr with ⟨t, hsec⟩ | hpe
+                            · exact hsec.block (hfresh2 c (List.mem_append_right _ hc))
+                            · cases hpe
+                          · exact List.any_eq_true.mpr ⟨y, hy, by simp⟩
+                      obtain ⟨s12, o12⟩ := addOthers_sinv hoth hready
+                      -- the counter, then the clean-up
+                      have s13 : SymsOk (ir12.bumpNext p) [] := s12.mono rfl (SecLe.of_same rfl rfl)
+                      have o13 : OrdOk (ir12.bumpNext p) := o12.mono rfl (SecLe.of_same rfl rfl)
+                      refine cleanup_sinv h ?_ s13 o13
+                      -- the blocks handed to the clean-up are pairwise different
+                      have hbT : b ∉ T := fun hm => by
+                        have := (hp.fresh b (List.mem_append_left _ hm)).1
+                        rw [hb] at this; cases this
+                      have heT : endB ∉ T := fun hm => hse2.block (hfresh2 endB (List.mem_append_left _ hm))
+                      rw [List.append_assoc]
+                      refine List.nodup_append.mpr ⟨by simp, ?_, ?_⟩
+                      · refine List.nodup_append.mpr ⟨hTnd, by simp, ?_⟩
+                        intro x hx y hy hxy
+                        simp only [List.mem_singleton] at hy
+                        subst hy; subst hxy
+                        exact heT hx
+                      · intro x hx y hy hxy
+                        simp only [List.mem_singleton] at hx
+                        subst hx; subst hxy
+                        rcases List.mem_append.mp hy with hy | hy
+                        · exact hbT hy
+                        · simp only [List.mem_singleton] at hy
+                          exact hbe hy
+      · cases h
+
 end GtirbVerif.IR
